@@ -8,6 +8,10 @@ def run(R):
         "every panic-capable, wrapping or truncating construct reachable from the execution entry points is "
         "mechanically discharged, discharged by a tabled reason (optionally with a re-proved guard), a known finding, or reported")
     rules_sites.recursion_rule(R, "C09.recursion", "EXEC", guard_roots="PARSE")
+    # several tabled reasons lean on "a group exists only because a validated row was aggregated into it" (the key mapping has every
+    # group-by part, a group key has one part per GROUP BY expression): who may create an entry of the group tables is decided here
+    from . import rules_c04
+    rules_c04._slot_creation(R, "C09.groups")
     R.assume("termination, stack depth and memory exhaustion are not decided")
     R.assume("dependencies do not panic on arguments that satisfy their documented preconditions")
 
